@@ -3,13 +3,13 @@ package harness
 // oracle_gov.go — C16 (governance gate, asset-parameter validity) and C19 (determinism).
 
 import (
-	"testing"
-	"time"
 	"bytes"
 	"crypto/sha256"
 	"encoding/hex"
 	"fmt"
 	"strings"
+	"testing"
+	"time"
 
 	"cosmossdk.io/math"
 	storetypes "cosmossdk.io/store/types"
